@@ -73,10 +73,13 @@ PROPS: dict[str, dict] = {
         "explanation": "sql.Engine.convert_column_expression / convert_predicate: every match arm denotes the expression's value under the stated SQL semantics; iteration.Engine.convert_column_expression / convert_column_container / convert_predicate: the returned closure (the real lambda, executed on the Skolem witness row) computes the expression's / container's / predicate's value -- for all expression trees over the portable operator set and all rows",
     },
     "C01": {
-        "modules": ["iteration"],
+        "modules": ["iteration", "c20"],
         # "independent of any merging, elision or reordering the library performed while the tree was being built":
         # the construction-time merging contracts (Slice.then, Sort.then, simplify, _finish_apply) are part of this check
-        "depends": ["C05"],
+        # ... and so are the contracts of backtracking insertion (C03: apply, backtrack_unary, commute), which is the "reordering": joins are outside this
+        # property's quantifier, so the join-only functions of C03 are left to C03/C04
+        "depends": ["C05", "C03"],
+        "depends_exclude": ["_operations._join:"],
         "extra": [_c01_extra, _rowiter_scan],
         "assumptions": ["leaf payloads are re-iterable and hold the leaf's rows; iteration-engine leaves always carry a payload; a user-built RowMapping holds rows that are unique on its key (documented requirement)",
                         "model of Python values in the iteration engine (DESIGN 2.2): a row dict is a key set plus a total map that is 0 outside it; generators are the loops they abbreviate (ghost output sequence); a dict comprehension keyed on columns is the insertion-ordered fold abstracted by its values; itertools.groupby yields the maximal runs; list.sort is stable also with reverse=True; stored callables are pure, total, integer-valued",
@@ -102,7 +105,7 @@ PROPS: dict[str, dict] = {
     "C18": {
         "modules": ["lazy"],
         # the other postconditions of execute (row content, payload caching) are C01 / C10
-        "only_clauses": {"iteration._engine:Engine.execute": ["a-lazy-tree-is-executed-without-starting-any-iteration"]},
+        "only_clauses": {"iteration._engine:Engine.execute": ["a-lazy-tree-is-executed-without-starting-any-iteration", "an-eager-operation-returns-rows-it-holds"]},
         "extra": [_c18_scan, _c18_extra, _c18_frame, _rowiter_scan],
         "assumptions": ["constructing a generator-backed RowIterable and RowIterable.sliced start no iteration (AST effect scan + the proved constructor contracts: they only store their arguments); to_mapping, materialized and the Sort arm's list() are the only iteration starts inside execute",
                         "the ghost counter RowIterable.iterations is specification state: the real classes keep no such counter",
@@ -153,7 +156,7 @@ PROPS: dict[str, dict] = {
         "explanation": "Diagnostics.run: doomed implies no rows; with a truthful executor doomed iff no rows; doomed verdicts carry a message",
     },
     "C19": {
-        "modules": ["names", "c20"],
+        "modules": ["names", "c20", "sqlsel"],  # the SQL engine's override of materialize is on the name path as well
         "closure": False,  # get_relation_name / LeafRelation.__post_init__ / Engine.materialize are the whole name path
         "assumptions": ["uuid.uuid4() returns a value never issued before (probabilistic in reality: collision probability 2^-122); .hex has 32 characters",
                         "thread interleavings are not explored: the postcondition of a call depends only on that call's own uuid, not on the shared counter, so it holds under every schedule"],
@@ -212,7 +215,8 @@ PROPS["C13"].update(
 )
 PROPS["C16"].update(
     level_text="Diagnostics.run is proved (all 60 paths, recursion by contract) to doom only empty relations, to be exact with a truthful executor, and to attach a message to every doomed verdict; "
-               "is_empty_invariant of every operation class is proved sound.",
+               "is_empty_invariant of every operation class is proved sound. The in-place edits of the verdict returned by the recursive call are justified by an obligation on every return path that the returned object "
+               "is allocated by that call and not stored anywhere else (fresh-result; dicts keyed by id() and caller-supplied mappings are inside the executor's subset).",
     level_note=_COMMON_NOTE + "Assumed: truthful leaf bounds; tier-L laws; executor modelled as an uninterpreted boolean function of the relation.",
 )
 PROPS["C19"].update(
